@@ -266,11 +266,22 @@ func loadedField(v ssa.Value) (*types.Var, ssa.Value) {
 	return nil, nil
 }
 
+// fieldStep is loadedField extended with address chains (&a.b.c without loads in between).
+func fieldStep(v ssa.Value) (*types.Var, ssa.Value) {
+	if f, b := loadedField(v); f != nil {
+		return f, b
+	}
+	if fa, ok := v.(*ssa.FieldAddr); ok {
+		return fieldOfAddr(fa), fa.X
+	}
+	return nil, nil
+}
+
 // fieldPath renders the chain of field loads v derives from, e.g. "raw.Header.Version".
 func fieldPath(v ssa.Value) string {
 	var parts []string
 	for i := 0; i < 8; i++ {
-		f, base := loadedField(v)
+		f, base := fieldStep(v)
 		if f == nil {
 			break
 		}
